@@ -20,6 +20,10 @@ structure Facts where
   /-- both type tests in `extractOption` are `reflect.TypeOf(opt.options[0]) ==/!= c.action.optionType`
       (identity of the option type); `false` = no type test (anything matches) -/
   typeCmpIdentity : Bool
+  /-- the type tests also accept an option whose type is not the node's option type but
+      *implements* it (the node's option type being an interface); the source compares
+      `reflect.Type`s with `==` / `!=` only: `false` -/
+  typeCmpImplements : Bool
   /-- `NewNodePath(path.path[N:]...)` for a path that continues into a sub-graph: `N` -/
   strip : Nat
   /-- the "sub path" branch rejects a passthrough node as well as a component
@@ -34,6 +38,29 @@ structure Facts where
       spare capacity of the array the receiver shares with the caller's Option -/
   designateCopies : Bool
   deriving DecidableEq, Repr
+
+/-! ### option types
+
+  Types are tags (identity of `reflect.Type` = equality of tags).  A lambda node may declare an
+  interface as its option type (`InvokableLambdaWithOption(func(ctx, in, opts ...any))`): its
+  `optionType` is then that interface type, while the type of an Option is always the dynamic
+  type of its first value (`reflect.TypeOf(opt.options[0])`), never an interface.  Two tags are
+  interface types: `tyAny` (`any`) and `tyIface` (a non-empty interface, implemented by the
+  concrete type `tyImpl` and by no other tag). -/
+
+def tyAny : Nat := 7
+def tyIface : Nat := 8
+def tyImpl : Nat := 9
+
+def isIfaceTy (t : Nat) : Bool := t == tyAny || t == tyIface
+
+/-- `reflect.TypeOf(v).Implements(t)` for a value of (concrete) type `v` and an interface type `t` -/
+def implementsTy (v t : Nat) : Bool := t == tyAny || (t == tyIface && v == tyImpl)
+
+/-- the test both sites of `extractOption` apply to (option type, node option type): identity,
+    plus – only if the fact says so – "the node's type is an interface the value implements" -/
+def tyMatch (F : Facts) (nodeTy optTy : Nat) : Bool :=
+  nodeTy == optTy || (F.typeCmpImplements && isIfaceTy nodeTy && implementsTy optTy nodeTy)
 
 /-- `compose.Option` as far as routing is concerned. All values of one Option have the same
     Go type (`ty`; the code says "assume that types of options are the same" and looks at
@@ -111,7 +138,7 @@ def mapE {α β ε : Type} (f : α → Except ε β) : List α → Except ε (Li
 
 /-- Body of `for name, c := range nodes` for an undesignated option with values. -/
 def undesignatedFor (F : Facts) (o : Opt) : Node → Log
-  | .comp k ty => if !F.typeCmpIdentity || ty == o.ty then o.vals.map (fun v => (k, .val v)) else []
+  | .comp k ty => if !F.typeCmpIdentity || tyMatch F ty o.ty then o.vals.map (fun v => (k, .val v)) else []
   | .pass k => [(k, .opt o)]
   | .graph k _ => [(k, .opt o)]
 
@@ -132,7 +159,7 @@ def pathEntry (F : Facts) (nodes : Nodes) (o : Opt) (p : Path) : Except Err Log 
         else
           match n with
           | .comp _ ty =>
-            if F.typeCmpIdentity && ty != o.ty then .error .wrongType
+            if F.typeCmpIdentity && !tyMatch F ty o.ty then .error .wrongType
             else .ok (o.vals.map (fun v => (k, .val v)))
           | _ => .ok [(k, .opt { o with paths := [] })]
       else
